@@ -29,7 +29,7 @@ type Pipe struct {
 	Kinds    []string
 }
 
-func tickN(stage int, x *ref.Node) *ref.Node {
+func TickN(stage int, x *ref.Node) *ref.Node {
 	return ref.Static("tick", ref.Int(int64(stage)), x)
 }
 
@@ -66,7 +66,7 @@ func GenPipe(r *rand.Rand, o PipeOpts, useArg bool) *Pipe {
 	stage := 0
 	wrap := func(x *ref.Node) *ref.Node {
 		// the element on its way through this stage's closure
-		e := tickN(stage, x)
+		e := TickN(stage, x)
 		if o.Cost == 1 || (o.Cost == 2 && stage == expensiveStage) {
 			e = ref.Static("delay", e, ref.Int(int64(o.DelayUs)))
 		}
@@ -115,13 +115,13 @@ func GenPipe(r *rand.Rand, o PipeOpts, useArg bool) *Pipe {
 			var other *ref.Node
 			switch r.IntN(4) {
 			case 0:
-				other = ref.Method(osrc, "map", ref.Clo([]string{c3}, ref.Bin("*", tickN(100+stage, id(c3)), ref.Int(3))))
+				other = ref.Method(osrc, "map", ref.Clo([]string{c3}, ref.Bin("*", TickN(100+stage, id(c3)), ref.Int(3))))
 			case 1:
-				other = ref.Method(osrc, "number", ref.Clo([]string{"d" + c3, c3}, ref.Bin("+", ref.Bin("*", tickN(100+stage, id(c3)), ref.Int(3)), ref.Bin("-", id("d"+c3), id("d"+c3)))))
+				other = ref.Method(osrc, "number", ref.Clo([]string{"d" + c3, c3}, ref.Bin("+", ref.Bin("*", TickN(100+stage, id(c3)), ref.Int(3)), ref.Bin("-", id("d"+c3), id("d"+c3)))))
 			case 2:
-				other = ref.Method(osrc, "iir", ref.Clo([]string{c3}, ref.Bin("*", tickN(100+stage, id(c3)), ref.Int(3))), ref.Clo([]string{c3, "d" + c3}, ref.Bin("+", ref.Bin("*", tickN(100+stage, id(c3)), ref.Int(3)), ref.Bin("-", id("d"+c3), id("d"+c3)))))
+				other = ref.Method(osrc, "iir", ref.Clo([]string{c3}, ref.Bin("*", TickN(100+stage, id(c3)), ref.Int(3))), ref.Clo([]string{c3, "d" + c3}, ref.Bin("+", ref.Bin("*", TickN(100+stage, id(c3)), ref.Int(3)), ref.Bin("-", id("d"+c3), id("d"+c3)))))
 			default:
-				other = ref.Method(osrc, "combine", ref.Clo([]string{c3, "d" + c3}, ref.Bin("+", ref.Bin("*", tickN(100+stage, id(c3)), ref.Int(3)), ref.Bin("-", id("d"+c3), id("d"+c3)))))
+				other = ref.Method(osrc, "combine", ref.Clo([]string{c3, "d" + c3}, ref.Bin("+", ref.Bin("*", TickN(100+stage, id(c3)), ref.Int(3)), ref.Bin("-", id("d"+c3), id("d"+c3)))))
 			}
 			cur = ref.Method(cur, "merge", other, ref.Clo([]string{a, b}, ref.Bin("<", wrap(id(a)), id(b))))
 		case "top":
@@ -131,7 +131,7 @@ func GenPipe(r *rand.Rand, o PipeOpts, useArg bool) *Pipe {
 		case "fsm":
 			cur = ref.Method(ref.Method(cur, "fsm", ref.Clo([]string{a, b}, ref.Static("goto", ref.Bin("%", ref.Bin("+", ref.Member(id(a), "state"), wrap(id(b))), ref.Int(5))))), "map", ref.Clo([]string{c3}, ref.Member(id(c3), "state")))
 		case "plus":
-			cur = ref.Bin("+", cur, ref.Method(ref.Static("numbers", ref.Int(int64(r.IntN(5)))), "map", ref.Clo([]string{c3}, tickN(200+stage, id(c3)))))
+			cur = ref.Bin("+", cur, ref.Method(ref.Static("numbers", ref.Int(int64(r.IntN(5)))), "map", ref.Clo([]string{c3}, TickN(200+stage, id(c3)))))
 		}
 	}
 	p.Stages = nst
@@ -148,9 +148,9 @@ func GenPipe(r *rand.Rand, o PipeOpts, useArg bool) *Pipe {
 	p.Terminal = terms[r.IntN(len(terms))]
 	switch p.Terminal {
 	case "reduce":
-		cur = ref.Try(ref.Method(cur, "reduce", ref.Clo([]string{a, b}, ref.Bin("+", tickN(300, id(a)), id(b)))), ref.Int(-1))
+		cur = ref.Try(ref.Method(cur, "reduce", ref.Clo([]string{a, b}, ref.Bin("+", TickN(300, id(a)), id(b)))), ref.Int(-1))
 	case "mapReduce":
-		cur = ref.Method(cur, "mapReduce", ref.Int(0), ref.Clo([]string{a, b}, ref.Bin("+", id(a), tickN(300, id(b)))))
+		cur = ref.Method(cur, "mapReduce", ref.Int(0), ref.Clo([]string{a, b}, ref.Bin("+", id(a), TickN(300, id(b)))))
 	case "sum":
 		cur = ref.Try(ref.Method(cur, "sum"), ref.Int(-1))
 	case "size":
@@ -162,26 +162,26 @@ func GenPipe(r *rand.Rand, o PipeOpts, useArg bool) *Pipe {
 	case "single":
 		cur = ref.Try(ref.Method(ref.Method(cur, "top", ref.Int(1)), "single"), ref.Int(-1))
 	case "minMax":
-		cur = ref.Method(ref.Method(cur, "minMax", ref.Clo([]string{a}, tickN(300, id(a)))), "string")
+		cur = ref.Method(ref.Method(cur, "minMax", ref.Clo([]string{a}, TickN(300, id(a)))), "string")
 	case "visit":
-		cur = ref.Method(cur, "visit", ref.Int(0), ref.Clo([]string{a, b}, ref.Bin("+", id(a), tickN(300, id(b)))))
+		cur = ref.Method(cur, "visit", ref.Int(0), ref.Clo([]string{a, b}, ref.Bin("+", id(a), TickN(300, id(b)))))
 	case "order":
-		cur = ref.Method(ref.Method(cur, "order", ref.Clo([]string{a}, ref.Un("-", tickN(300, id(a))))), "string")
+		cur = ref.Method(ref.Method(cur, "order", ref.Clo([]string{a}, ref.Un("-", TickN(300, id(a))))), "string")
 	case "groupByInt":
 		cur = ref.Method(ref.Method(ref.Method(cur, "groupByInt", ref.Clo([]string{a}, ref.Bin("%", id(a), ref.Int(3)))), "map", ref.Clo([]string{b}, ref.Method(ref.Member(id(b), "values"), "sum"))), "sum")
 		cur = ref.Try(cur, ref.Int(-1))
 	case "uniqueInt":
 		cur = ref.Method(ref.Method(cur, "uniqueInt", ref.Clo([]string{a}, ref.Bin("%", id(a), ref.Int(5)))), "size")
 	case "present":
-		cur = ref.Method(cur, "present", ref.Clo([]string{a}, ref.Bin("=", tickN(300, id(a)), K)))
+		cur = ref.Method(cur, "present", ref.Clo([]string{a}, ref.Bin("=", TickN(300, id(a)), K)))
 	case "indexWhere":
-		cur = ref.Method(cur, "indexWhere", ref.Clo([]string{a}, ref.Bin("=", tickN(300, id(a)), K)))
+		cur = ref.Method(cur, "indexWhere", ref.Clo([]string{a}, ref.Bin("=", TickN(300, id(a)), K)))
 	case "member":
 		cur = ref.Bin("~", K, cur)
 	case "multiUse":
 		cur = ref.Method(ref.Method(cur, "multiUse", ref.MapN([]string{"u", "v"}, []*ref.Node{
-			ref.Clo([]string{a}, ref.Method(ref.Method(id(a), "map", ref.Clo([]string{b}, tickN(300, id(b)))), "size")),
-			ref.Clo([]string{a}, ref.Method(id(a), "mapReduce", ref.Int(0), ref.Clo([]string{"tc", "td"}, ref.Bin("+", id("tc"), tickN(301, id("td")))))),
+			ref.Clo([]string{a}, ref.Method(ref.Method(id(a), "map", ref.Clo([]string{b}, TickN(300, id(b)))), "size")),
+			ref.Clo([]string{a}, ref.Method(id(a), "mapReduce", ref.Int(0), ref.Clo([]string{"tc", "td"}, ref.Bin("+", id("tc"), TickN(301, id("td")))))),
 		})), "string")
 	case "eval":
 		cur = ref.Method(ref.Method(cur, "eval"), "string")
